@@ -41,7 +41,8 @@ class Prop(PropBase):
         for i in range(500 if quick else 12000):
             cls = rng.choice(sigs.CLASSES)
             L = rng.choice([1, 2, 3, 8, 16, 17, 31, 64, 100, rng.randint(1, 128)])
-            rate = rng.choice([("1", "Hz"), ("1", "kHz"), ("16", "MHz"), ("1", "GHz"), ("250", "Hz"), ("10", "Hz"), ("10", "Hz")])
+            rate = rng.choice([("1", "Hz"), ("1", "kHz"), ("16", "MHz"), ("1", "GHz"), ("250", "Hz"), ("10", "Hz"), ("10", "Hz"),
+                               ("44100", "Hz"), ("1000000", "Hz"), ("49", "Hz")])
             t0 = rng.choice(sigs.T0S + ([None] if rng.random() < 0.25 else []))
             n = rng.choice([0, 1, L, max(L - 1, 0), rng.randint(0, L), rng.randint(0, L), -1 if rng.random() < 0.3 else 1])
             r = rng.random()
@@ -57,6 +58,13 @@ class Prop(PropBase):
             unit = rng.choice(["s", "ms", "us"])
             yield {"op": "snip", "cls": cls, "L": L, "rate": rate, "t0": t0, "t": t, "n": n, "form": form,
                    "unit": unit, "seed": rng.randrange(1 << 30)}
+        # every whole-sample offset of a short record, at rates where k / rate * rate is not k in floating point: a whole
+        # offset is a plain slice, bit for bit, whatever arithmetic the request goes through
+        for rate in (("1000000", "Hz"), ("44100", "Hz"), ("49", "Hz"), ("800", "MHz")):
+            for k in range(0, 64, 1 if not quick else 2):
+                yield {"op": "snip", "cls": "Signal" if k % 2 else "BasebandSignal", "L": 64, "rate": rate, "t0": sigs.T0S[k % len(sigs.T0S)],
+                       "t": float(k), "n": rng.choice([64 - k, 1, (64 - k) // 2]), "form": "int" if k % 3 else "float", "unit": "s",
+                       "seed": rng.randrange(1 << 30)}
         # long signals, fractional offsets far from both ends: the interpolation is over the WHOLE signal (a windowed
         # approximation differs by 1e-4..1e-3 of the rms there)
         for _ in range(4 if quick else 60):
